@@ -14,6 +14,7 @@ use std::task::ready;
 use std::task::Context;
 use std::task::Poll;
 use tokio::io::ReadBuf;
+use wtransport_proto::error::ErrorCode;
 use wtransport_proto::frame::Frame;
 use wtransport_proto::session::SessionRequest;
 use wtransport_proto::stream as stream_proto;
@@ -407,7 +408,18 @@ pub mod uniremote {
         }
 
         pub async fn upgrade(mut self) -> Result<StreamUniRemoteH3, ProtoReadError> {
-            let proto = self.proto.upgrade_async(&mut self.stream).await?;
+            let proto = match self.proto.upgrade_async(&mut self.stream).await {
+                Ok(proto) => proto,
+                Err(error) => {
+                    if matches!(error, ProtoReadError::H3(ErrorCode::StreamCreation)) {
+                        // Unknown stream type: reading of this stream (only) is aborted.
+                        let _ = self.stream.stop(ErrorCode::StreamCreation.to_code());
+                    }
+
+                    return Err(error);
+                }
+            };
+
             Ok(StreamUniRemoteH3 {
                 stream: self.stream,
                 proto,
